@@ -88,6 +88,16 @@ func (c *Ctx) expectNF(f *FC, rule, name string, accept []string, why string) bo
 			ok = true
 		}
 	}
+	if !ok {
+		if nf2, helpers := f.nfInliningNewHelpers(fn, false); len(helpers) > 0 {
+			for _, a := range accept {
+				if specRegexp(a).MatchString(nf2) {
+					c.R.OK(rule, name, "closed-form", c.Pos(f.M.Fset, fn.Decl.Pos()), why+" (after inlining the helper(s) added since the review: "+strings.Join(helpers, ", ")+"): "+nf2)
+					return true
+				}
+			}
+		}
+	}
 	return c.R.Check(ok, rule, name, "closed-form", c.Pos(f.M.Fset, fn.Decl.Pos()), why+": "+nf,
 		"closed form is not the specification term ("+why+"); "+diffHint(nf, accept[0]))
 }
